@@ -1214,10 +1214,14 @@ fn run_case(case: &Case, watchdog: Duration) -> Outcome {
             // in flight, CONFIRM_ITERS runtime iterations without any event.
             let l = log.borrow();
             let stuck: Vec<usize> = (0..2).filter(|r| !l.sides[*r].done).collect();
+            // blame the side that does not consume what is readable; otherwise the side that
+            // is still in the data phase (a side waiting for the peer's close frame merely
+            // waits for that one); otherwise the first
             let blamed = stuck
                 .iter()
                 .copied()
                 .find(|r| unread[*r] > 0)
+                .or_else(|| stuck.iter().copied().find(|r| l.sides[*r].phase == "duplex"))
                 .unwrap_or(stuck[0]);
             let buffered = [sh.buffered[0].load(Ordering::SeqCst), sh.buffered[1].load(Ordering::SeqCst)];
             let rule = if buffered.iter().all(|b| *b > 0) && unread.iter().all(|u| *u > 0) {
